@@ -37,6 +37,9 @@ try:
     rc1, out1 = sh(cmd, wt)
     res["demo_with_patch_rc"] = rc1
     res["demo_with_patch_tail"] = out1[-900:]
+    # The pinned suite is run without the demonstration.
+    os.remove(f"{wt}/tests/{name}.rs")
+    sh("git checkout -- Cargo.toml", wt)
     rcb, outb = sh("cargo test --workspace --no-fail-fast --offline -j 8", wt)
     res["baseline_with_patch_rc"] = rcb
     res["baseline_with_patch_tail"] = "\n".join(l for l in outb.splitlines() if "test result" in l)[-600:]
